@@ -208,6 +208,27 @@ Definition call_builtin (st : rstate) (f : string) (vs : list lval) : outcome (r
         if (1 <=? i)%Z then OK (st, LStr (sdrop (Z.to_nat (i - 1)) s)) else OUnsup "string.sub with non-positive indices"
     | _ => OUnsup "string.sub argument forms"
     end
+  else if (String.eqb f "table.sort_asc" || String.eqb f "table.sort_desc")%bool then
+    (* table.sort(t, function(a, b) return a < b end) / (a > b) on an array of strings (translator) *)
+    let asc := String.eqb f "table.sort_asc" in
+    let strs := fix go (l : list lval) : option (list string) :=
+                  match l with
+                  | [] => Some []
+                  | LStr s :: r => match go r with Some rs => Some (s :: rs) | None => None end
+                  | _ => None
+                  end in
+    let ins := fix ins (x : string) (l : list string) : list string :=
+                 match l with
+                 | [] => [x]
+                 | y :: r => if (if asc then str_lt y x else str_lt x y) then y :: ins x r else x :: l
+                 end in
+    match vs with
+    | [LTab l] => match strs l with
+                  | Some ss => OK (st, LTab (map LStr (fold_right ins [] ss)))
+                  | None => OUnsup "table.sort of non-strings"
+                  end
+    | _ => OUnsup "table.sort argument forms"
+    end
   else OUnsup ("function not modelled: " ++ f).
 
 Definition num_cmp (op : binop) (x y : Z) : bool :=
